@@ -246,8 +246,8 @@ impl Engine for C14 {
     }
     fn bound(&self, tier: Tier) -> String {
         let k = match tier {
-            Tier::Quick => 2,
-            Tier::Thorough => 3,
+            Tier::Quick => 3,
+            Tier::Thorough => 4,
         };
         format!("3 base paths x all non-empty subsets of size <= {} of {} file names", k, NAMES.len())
     }
@@ -261,8 +261,8 @@ impl Engine for C14 {
     }
     fn enumerate(&self, tier: Tier, emit: &mut dyn FnMut(&str)) {
         let k = match tier {
-            Tier::Quick => 2,
-            Tier::Thorough => 3,
+            Tier::Quick => 3,
+            Tier::Thorough => 4,
         };
         let n = NAMES.len();
         for size in 1..=k {
